@@ -45,6 +45,8 @@ type ReadCase struct {
 	// NoGate is set by the binding self-test on deliberately corrupted
 	// predictions, which the encoding/csv sanity gate would otherwise discard.
 	NoGate bool `json:"nogate"`
+	// Sched, if present, is one more delivery schedule to try (cases made from a recorded run carry theirs).
+	Sched []int `json:"sched,omitempty"`
 }
 
 // RTCase is one line exported by Gen_CsvRoundTrip.
@@ -331,7 +333,11 @@ func replayRead(raw json.RawMessage) hx.Outcome {
 	var whole []Seen
 	var wholeNames [][]byte
 	haveWhole := false
-	for _, sched := range c07.Schedules(n, maxAll, caseHash(raw)) {
+	scheds := c07.Schedules(n, maxAll, caseHash(raw))
+	if len(c.Sched) > 0 {
+		scheds = append(scheds[:1:1], append([][]int{c.Sched}, scheds[1:]...)...)
+	}
+	for _, sched := range scheds {
 		sc := "chunked"
 		if len(sched) <= 1 {
 			sc = "whole"
